@@ -595,8 +595,9 @@ C28Query ==
                        min |-> IF S = {} THEN 0 ELSE CHOOSE x \in vs : \A y \in vs : x <= y,
                        max |-> IF S = {} THEN 0 ELSE CHOOSE x \in vs : \A y \in vs : x >= y])
 
-C28Classes == {"wset", "wmx", "wtime", "wval", "query", "query2"}
-C28Enabled(k) == Len(hist) < Warm => k \notin {"query", "query2"}
+\* "query2".."query4" are aliases that weight queries against writes in simulation
+C28Classes == {"wset", "wmx", "wtime", "wval", "query", "query2", "query3", "query4"}
+C28Enabled(k) == Len(hist) < Warm => k \in {"wset", "wmx", "wtime", "wval"}
 C28Act(k) ==
     CASE k = "wset" -> WriteSetBatch [] k = "wmx" -> WriteMxBatch [] k = "wtime" -> WriteTimeBatch
       [] k = "wval" -> WriteValBatch [] OTHER -> C28Query
